@@ -46,8 +46,37 @@ Bound ==
 
 View == <<mgr, handles, kx, hx>>
 
-\* one step from every initial state only (decision-table configurations): res is part of the state there
-OneStep == res.op = "Init"
+(* ---- decision table of AddKeyWithOpts: one call, with every option list of OptMode, every ID      *)
+(* requirement and every draw, from each of a few representative manager states (no handles)        *)
+DE(id, st, p, r) == [id |-> id, status |-> st, primary |-> p, req |-> r]
+DecisionStates == {
+  [entries |-> <<>>, unavail |-> {}],
+  [entries |-> <<>>, unavail |-> {1}],                                                          \* a burnt id
+  [entries |-> <<DE(1, "ENABLED", TRUE, 1)>>, unavail |-> {1}],
+  [entries |-> <<DE(1, "ENABLED", TRUE, NoReq), DE(2, "DISABLED", FALSE, 2)>>, unavail |-> {1, 2}],
+  [entries |-> <<DE(2, "ENABLED", FALSE, 2), DE(1, "DESTROYED", FALSE, NoReq)>>, unavail |-> {1, 2, 3}],   \* no primary, no id left
+  [entries |-> <<DE(3, "ENABLED", FALSE, 3), DE(1, "ENABLED", TRUE, 1)>>, unavail |-> {1, 3}] }
+DecisionInit ==
+  /\ mgr \in {[m \in Mgr |-> s] : s \in DecisionStates}
+  /\ handles = <<>> /\ hx = <<>>
+  /\ res = Ok("Init", AnyMgr, NoReq)
+  /\ kx = [m \in Mgr |-> [mat |-> [i \in M!Ids(mgr[m].entries) |-> "SYMMETRIC"], ann |-> AnnNil]]
+  /\ io = Call(None, None)
+MCNextOpts ==
+  /\ res.op = "Init"              \* only the initial states are expanded (res is part of the state there: no VIEW)
+  /\ \E m \in Mgr, r \in ID \cup {NoReq}, opts \in OptListsMC :
+       \/ AddOptsRefused(m, r, opts) \/ AddOptsCollision(m, r, opts) \/ AddOptsCollisionClearsPrimary(m, r, opts)
+       \/ \E mat \in MatIn, d \in ID : AddOptsOk(m, r, mat, opts, d)
+
+(* ---- derived handles as leaves (ACTION_CONSTRAINT): a second handle comes only from Public() or a   *)
+(* constructor applied to the first, and once there are two, only handle-level calls follow.           *)
+GrowOps == {"HPublic", "Import", "ImportAnn"}
+DerivedLeaf ==
+  /\ Len(handles') = 2 /\ Len(handles) = 1 => res'.op \in GrowOps
+  /\ Len(handles) = 2 => res'.op \in PureOps \cup GrowOps
+
+\* manager-centred replay graph: a state with a handle is only used to start a manager over from it
+HandleLeaf == Len(handles) >= 1 => res'.op = "FromHandle"
 
 StateJson(g, hs, k, x) ==
   [mgr |-> [m \in Mgr |-> [entries |-> HView(g[m].entries, k[m]), unavail |-> g[m].unavail, ann |-> k[m].ann]],
